@@ -146,3 +146,14 @@ chk("C18", MC,
     "FMMU logical addresses map to the same bytes, direct datagrams are exactly the region, logical windows of different groups "
     "are disjoint, and a group is rejected only if it really does not fit into one frame.",
     PY_NOTE, "symbolic execution of the real allocation code with symbolic sizes over byte ropes (z3, path-exhaustive)", "B:8/C18")
+
+chk("C12", MC,
+    "The real roundtrip/sendloop/process_packet/roundtrip_packet/datagram_received run on a deterministic asyncio loop against a "
+    "frame-level bus stub: 1-2 (3) concurrent requests with SYMBOLIC payload length (0..1472; optionally one 1473..1600 that can "
+    "never fit) and content; per frame the engine decides deliver/lose/duplicate, the returned data and 16-bit working counters "
+    "are symbolic; any one request may be cancelled before or after sending; randint yields a fresh or colliding frame index. "
+    "Obligations: each submitted request is sent exactly once in submission order with its own payload; it completes with the bus "
+    "bytes at its own datagram position, or EtherCatError iff its counter is 0, or stays pending iff its frame was lost; other "
+    "requests' cancellation/failure never changes its outcome; an oversize request fails and the master does not stall.",
+    PY_NOTE + " asyncio's FIFO ready queue is taken as contract (no artificial reordering).",
+    "symbolic execution of the real coroutines on a deterministic event loop with solver-chosen faults/cancellation (z3)", "B:8/C12")
